@@ -1002,7 +1002,7 @@ pub fn run(property: &'static str, tier: Tier, started: Instant) -> Vec<Part> {
     let props = [property];
     let depth = tier.pick(5usize, 6usize);
     let depth2 = tier.pick(5usize, 6usize);
-    let budget = tier.pick(55u64, 3500u64);
+    let budget = if property == "C01" { tier.pick(55u64, 1500u64) } else { tier.pick(55u64, 3500u64) };
     let mut parts = vec![];
     let mut plan: Vec<(Root, bool, usize)> = match property {
         "C13" => vec![(Root::Crash, false, depth), (Root::Crash, true, depth), (Root::Partition, true, depth), (Root::Partition, false, depth), (Root::CrashRemovedAtA, true, depth2), (Root::Star, false, depth), (Root::StarBLiveXDead, false, depth2), (Root::StarBLiveXDead, true, depth2), (Root::StarXResetAtA, false, depth2)],
